@@ -79,6 +79,24 @@ def check_spec(h: Harness, site: str, spec: Spec, b: Built, usable: bool = True)
             us = sorted(b.index[c] for c in g2.all_nodes if c in b.index)
         except Exception as e:  # noqa: BLE001
             h.fail("Grammar.usable_grammar", "raises", f"usable_grammar() raised {type(e).__name__} on {sx(line_spec)}", sx(line_spec))
+    # other grammars over the same classes come into being (the usable sub-grammar above; the same classes in the OTHER
+    # depth-counting mode; a proper subset of the productions): what `g` reports must not move
+    try:
+        from geneticengine.grammar.grammar import extract_grammar
+        with warnings.catch_warnings():
+            warnings.simplefilter("ignore")
+            extract_grammar(b.considered(), b.start, not spec.expansion)
+            if len(b.considered()) > 1:
+                extract_grammar(b.considered()[1:], b.start, spec.expansion)
+    except Exception:  # noqa: BLE001
+        pass
+    alts_again, dist_again = observe(b, g)
+    if (alts_again, dist_again, syms(b, g.recursive_prods)) != (alts, dist, rec):
+        what = "distanceToTerminal" if dist_again != dist else ("alternatives" if alts_again != alts else "recursive_prods")
+        h.fail(site, "analysis-changed-by-another-grammar",
+               f"after other grammars were extracted over the same classes (usable_grammar(), the other depth mode, a subset), {what} of the "
+               f"first grammar changed: {dist if what == 'distanceToTerminal' else alts} -> {dist_again if what == 'distanceToTerminal' else alts_again}",
+               sx(line_spec))
     nontrivial = any(len(cs) >= 2 for _, cs in alts) or bool(rec)
     obs = [["error", False], ["alts", alts], ["dist", dist], ["rec", rec], ["terminals", term], ["nonterminals", nonterm]]
     if us is not None:
@@ -122,7 +140,7 @@ def oracle_min_depths(spec: Spec, alts: dict[int, list[int]], registered: set[in
             return any(der(x, k) for x in t[1:])
         if kind == "ann":
             mh = t[2]
-            if not isinstance(mh, str) and mh[0] == "listSize":
+            if not isinstance(mh, str) and mh[0] in ("listSize", "listSizeNoOps"):
                 return True if (allow_empty and mh[1] == 0) else der(t[1][1], k)
             if not isinstance(mh, str) and mh[0] == "depListSize":
                 return True if allow_empty else der(t[1][1], k)
